@@ -246,6 +246,8 @@ class Server(object):
   def next_connect(self):
     i = self.n_connects
     self.n_connects += 1
+    if getattr(self, 'blackhole', None):
+      return ['hang', self.blackhole]        # nobody answers: the attempt gives up with ETIMEDOUT after that many seconds
     if not self.up:
       return ['refuse', self.down_refuse_delay]
     if i < len(self.connect_script):
